@@ -30,6 +30,52 @@ PRE = {
     "junk": "garbage line\r\n",
 }
 TAIL_CLASS = {"none": 0, "phdr": 1, "phdr_line": 1, "pbody": 2, "pbody0": 2, "junk": 3}
+
+# A partial frame at EVERY byte offset (what Proofs/LinkClientFraming.v quantifies over): the tail
+# "cut/<layout>/<c>" is the first c bytes of one well-formed frame, for the three header layouts a
+# conforming peer may emit.
+CUT_BODY = '{"jsonrpc": "2.0", "id": 1}'
+CUT_HEADERS = {
+    "cl": "Content-Length: %d\r\n\r\n" % len(CUT_BODY),
+    "clct": "Content-Length: %d\r\nContent-Type: application/vscode-jsonrpc; charset=utf-8\r\n\r\n" % len(CUT_BODY),
+    "ctcl": "Content-Type: application/vscode-jsonrpc; charset=utf-8\r\nContent-Length: %d\r\n\r\n" % len(CUT_BODY),
+}
+
+
+def _cut(name):
+    _, lay, c = name.split("/")
+    return lay, int(c)
+
+
+def is_tail(name):
+    if name in TAILS:
+        return True
+    try:
+        lay, c = _cut(name)
+        return name.startswith("cut/") and lay in CUT_HEADERS and 0 <= c < len(CUT_HEADERS[lay]) + len(CUT_BODY)
+    except Exception:
+        return False
+
+
+def tail_bytes(name):
+    if name in TAILS:
+        return TAILS[name]
+    lay, c = _cut(name)
+    return (CUT_HEADERS[lay] + CUT_BODY)[:c]
+
+
+def tail_class(name):
+    """the model's tail class: 0 clean, 1 cut inside the header block, 2 header block complete and body cut, 3 junk"""
+    if name in TAIL_CLASS:
+        return TAIL_CLASS[name]
+    lay, c = _cut(name)
+    return 0 if c == 0 else 1 if c < len(CUT_HEADERS[lay]) else 2
+
+
+def cut_tails(lay, body_sample=None):
+    h = len(CUT_HEADERS[lay])
+    body = range(h, h + len(CUT_BODY)) if body_sample is None else body_sample
+    return ["cut/%s/%d" % (lay, c) for c in list(range(1, h)) + list(body)]
 EXIT_RC = {"0": 0, "1": 1, "kill": -9}
 
 
@@ -69,6 +115,10 @@ def _payload(case, v):
 async def _run_case(case):
     from pygls.client import JsonRPCClient
 
+    # "pad": KiB of filler per request, so that the outstanding requests exceed what the server's
+    # stdin pipe holds (64 KiB): the server dies with undelivered client data, the pipe is lost
+    # with an error instead of cleanly
+    PAD = "x" * (1024 * case.get("pad", 0))
     hook_log, err_log, hook_done = [], [], []
     hook_entered = asyncio.Event()
     futs, cfuts = [], []            # asyncio futures handed to the caller / the underlying futures
@@ -82,12 +132,12 @@ async def _run_case(case):
         base, args = BaseLanguageClient, ("c17-client", "v1")
         method = "textDocument/hover"
         def params(n):
-            return types.HoverParams(text_document=types.TextDocumentIdentifier(uri="file:///c17.txt"),
+            return types.HoverParams(text_document=types.TextDocumentIdentifier(uri="file:///c17.txt" + PAD),
                                      position=types.Position(line=n, character=0))
     else:
         base, args, method = JsonRPCClient, (), "c17/req"
         def params(n):
-            return {"n": n}
+            return {"n": n, "pad": PAD}
 
     class Client(base):
         async def server_exit(self, server):
@@ -132,7 +182,7 @@ async def _run_case(case):
         elif m[0] == "B":                      # a reply that names the request but cannot be accepted
             answers[str(n)] = ["bad", m[1]]
     script = {"k": k, "exit": case["exit"], "answers": answers, "srvreq": case.get("srvreq", 0),
-              "pre": [PRE[p] for p in case.get("pre", [])], "tail": TAILS[case.get("tail", "none")]}
+              "pre": [PRE[p] for p in case.get("pre", [])], "tail": tail_bytes(case.get("tail", "none"))}
     client = Client(*args)
 
     @client.feature("c17/slow")
@@ -380,10 +430,11 @@ def valid(c):
     ids = [i for i in (c.get("ids") or []) if i is not None]
     if len(set(map(repr, ids))) != len(ids) or len(c.get("ids") or []) > nf:
         return False                  # caller-chosen ids must be distinct (7 and "7" are)
-    return (dead and c["exit"] in EXIT_RC and c.get("tail", "none") in TAILS
+    return (dead and c["exit"] in EXIT_RC and is_tail(c.get("tail", "none"))
             and c.get("hook", "ok") in HOOKS and c.get("client", "plain") in ("plain", "lsp")
             and c.get("api", "async") in ("async", "sync") and c.get("srvreq", 0) in (0, 1, 2)
-            and c.get("stop_at", "after") in ("after", "early", "dead", "hook"))
+            and c.get("stop_at", "after") in ("after", "early", "dead", "hook")
+            and c.get("pad", 0) in (0, 16, 48))
 
 
 def events(c):
@@ -394,7 +445,7 @@ def events(c):
         evs.append([2, 4, j])
     for p in c.get("pre", []):
         evs.append([2, 1] if p == "bad" else [2, 2])
-    rc, tc = EXIT_RC[c["exit"]], TAIL_CLASS[c.get("tail", "none")]
+    rc, tc = EXIT_RC[c["exit"]], tail_class(c.get("tail", "none"))
     if c["k"] == 0:
         evs.append([3, rc, tc])
     n, nf = 0, 0
@@ -599,6 +650,8 @@ class C17(core.Property):
             c["hook"] = rng.choice(["ok", "ok", "raise", "slow", "await", "await"])
         if rng.random() < 0.3:
             c["srvreq"] = rng.randint(1, 2)     # coroutine handlers of server requests still running at the exit
+        if nf >= 2 and rng.random() < 0.2:
+            c["pad"] = rng.choice([16, 48])     # more outbound data than the server's stdin pipe holds
         if rng.random() < 0.5:
             c["api"] = "sync"
         if rng.random() < 0.3:
@@ -625,7 +678,7 @@ class C17(core.Property):
         if chk.quick:
             pick = [(n, k, exits[(n + k + i) % 3], tails[(2 * n + k + i) % len(tails)])
                     for i, n in enumerate([0, 1, 2, 3, 5, 8]) for k in sorted({0, (n + 1) // 2, n})]
-            pick += rng.sample(grid, 40)
+            pick += rng.sample(grid, 24)
         else:
             pick = grid
         for j, (n, k, e, t) in enumerate(pick):
@@ -633,8 +686,30 @@ class C17(core.Property):
             if j % 2:
                 self._decorate(rng, c)
             cases.append(c)
+        # (1b) a partial frame at every byte offset of its header block (three layouts) and inside its
+        # body, with two requests outstanding
+        hb = len(CUT_HEADERS["cl"])
+        if chk.quick:
+            cuts = cut_tails("cl", body_sample=[hb, hb + 1, hb + len(CUT_BODY) - 1])
+            for lay in ("clct", "ctcl"):
+                h = len(CUT_HEADERS[lay])
+                # the offsets around every line boundary and colon of the block, plus a seeded sample
+                marks = {i + d for i, ch in enumerate(CUT_HEADERS[lay]) if ch in ":\r\n" for d in (0, 1, 2)}
+                offs = sorted(o for o in marks | set(rng.sample(range(1, h), 6)) if 1 <= o < h)
+                cuts += ["cut/%s/%d" % (lay, o) for o in offs] + ["cut/%s/%d" % (lay, h + 3)]
+        else:
+            cuts = [t for lay in CUT_HEADERS for t in cut_tails(lay)]
+        for j, t in enumerate(cuts):
+            cases.append({"msgs": [["R"], ["R"]], "k": j % 3, "exit": exits[j % 3], "tail": t})
+        # (1c) the server dies with undelivered client data in (and behind) its stdin pipe
+        for j, (n, k) in enumerate([(8, 0), (8, 1), (8, 2), (4, 1), (3, 3)] if chk.quick else
+                                   [(n, k) for n in (2, 3, 4, 8) for k in range(0, n + 1)]):
+            cases.append({"msgs": [["R"]] * n, "k": k, "exit": exits[j % 3], "tail": tails[j % len(tails)],
+                          "pad": 48, "hook": ["ok", "slow", "await"][j % 3]})
+        # the remaining generated conversations end in a partial frame at a random offset now and then
+        tails = tails + [rng.choice(cut_tails(rng.choice(list(CUT_HEADERS)))) for _ in range(4)]
         # (2) mixed conversations: answered / error-answered / late-answered / cancelled / notifications
-        for _ in range(chk.n(70, 2500)):
+        for _ in range(chk.n(60, 2500)):
             n = rng.choice([1, 2, 3, 4, 5, 6, 8, 10])
             c = self._mixed(rng, n, rng.randint(0, n), rng.choice(exits), rng.choice(tails))
             r = rng.random()
@@ -818,7 +893,7 @@ class C17(core.Property):
         return among(M) or among(self.prefix_schedules(c))
 
     def nontrivial(self, c):
-        return outstanding(c) >= 1 or TAIL_CLASS[c.get("tail", "none")] in (1, 2)
+        return outstanding(c) >= 1 or tail_class(c.get("tail", "none")) in (1, 2)
 
     def shrink(self, c):
         def without(i):
@@ -852,7 +927,7 @@ class C17(core.Property):
                 yield d
         # (the hook kind is never shrunk away: a deadlock in an awaiting hook would degrade to a
         # mere difference in what a trivial hook sees)
-        for key in ("pre", "post", "errhook", "early_stop", "stop_at", "client", "api", "srvreq"):
+        for key in ("pre", "post", "errhook", "early_stop", "stop_at", "client", "api", "srvreq", "pad"):
             if c.get(key):
                 d = dict(c); d.pop(key)
                 if valid(d):
@@ -865,7 +940,7 @@ class C17(core.Property):
         if ids and all(x is None for x in ids):
             d = dict(c); d.pop("ids")
             yield d
-        if c.get("tail", "none") != "none" and TAIL_CLASS[c["tail"]] != 2:
+        if c.get("tail", "none") != "none" and tail_class(c["tail"]) != 2:
             d = dict(c); d["tail"] = "none"
             yield d
         if c["exit"] != "0":
@@ -947,12 +1022,13 @@ class C17(core.Property):
     def distribution(self, cases):
         d = {}
         for c in cases:
-            for key in ("exit:" + c["exit"], "tail:" + c.get("tail", "none"), "k:%d" % min(c["k"], 9),
+            for key in ("exit:" + c["exit"], "tail:" + (c.get("tail", "none") if c.get("tail", "none") in TAILS
+                                   else "cut/%s/%s" % (_cut(c["tail"])[0], ("header", "header", "body")[min(tail_class(c["tail"]), 2)])), "k:%d" % min(c["k"], 9),
                         "outstanding:%d" % min(outstanding(c), 9),
                         "hook:" + c.get("hook", "ok"), "errhook:" + c.get("errhook", "ok"),
                         "pre:%d" % len(c.get("pre", [])), "post:%d" % c.get("post", 0),
                         "api:" + c.get("api", "async"), "client:" + c.get("client", "plain"),
-                        "srvreq:%d" % c.get("srvreq", 0),
+                        "srvreq:%d" % c.get("srvreq", 0), "pad:%d" % c.get("pad", 0),
                         "ids:" + ("chosen" if any(i is not None for i in c.get("ids") or []) else "uuid"),
                         "stop_at:" + (c.get("stop_at") or ("early" if c.get("early_stop") else "after"))):
                 d[key] = d.get(key, 0) + 1
